@@ -21,7 +21,8 @@ THOROUGH_MC = ["MC_Krill_chain.cfg", "MC_Krill_roll.cfg",
 
 # which invariant / step property belongs to which property id
 OWNER = {
-    "C01": ["C01_", "RpMatches", "SettledAgreed"],
+    "C01": ["C01_", "C0109_", "RpMatches", "SettledAgreed"],
+    "C09": ["C09_", "C0109_"],
     "C02": ["C02_"],
     "C03": ["C03_"],
     "C04": ["C04_"],
@@ -29,15 +30,22 @@ OWNER = {
 }
 
 
-def owner_of(violated):
+def owners_of(violated):
+    """The property ids whose checks report a violation of the named
+    invariant (none: a step no action of the specification allows --
+    reported by whichever check sees it)."""
     if violated is None:
-        return None
-    for pid, prefixes in OWNER.items():
-        if any(violated.startswith(p) for p in prefixes):
-            return pid
+        return []
+    res = [pid for pid, prefixes in OWNER.items()
+           if any(violated.startswith(p) for p in prefixes)]
     if violated == "TraceStepProps":
-        return "C02"
-    return None
+        res.append("C02")
+    return res
+
+
+def owner_of(violated):
+    res = owners_of(violated)
+    return res[0] if res else None
 
 
 def signature(rej):
@@ -67,6 +75,8 @@ def behaviour_of(segment):
                 a[k] = ev[k]
         if e == "Step":
             a["task"] = ev.get("task")
+            if ev.get("held"):
+                a["a"] = "StepHold"
         acts.append(a)
     beh = {"top": top or ["p1", "p2", "a1"], "actions": acts,
            "slots": segment[0].get("slots", []),
@@ -194,6 +204,135 @@ MULTI_DIRECTED = [
         _a("AddParent", c="C2", p="A", res=["p2"]), _a("Settle"),
         _a("RoaDel", c="C", r=["p1", "a1"]), _a("Settle")]},
 ]
+
+
+# One directed behaviour per clause of the property statements that the
+# random themes reach only now and then (every behaviour is validated
+# against KrillTrace.tla like a generated one; object-level facts -- CRLs,
+# manifests, the relying-party walk -- are compared at every step).
+CLAUSES = {
+    # C01: provider authorisations and router keys follow the certificate
+    # (AS lost and regained), at two levels
+    "aspa-rtr-shrink-regain": {"actions": [
+        _a("AddCa", c="B", p="A", res=["p1", "a1"]), _a("Settle"),
+        _a("AspaSet", c="B", cust="a1", prov=["a2"]),
+        _a("RtrAdd", c="B", r=["a1", "rtr:k1"]),
+        _a("RoaAdd", c="B", r=["p1", "a1"]), _a("Settle"),
+        _a("ChildRes", c="B", p="A", res=["p1"]), _a("Settle"),
+        _a("AspaSet", c="B", cust="a1", prov=["a2", "a3"]),
+        _a("ChildRes", c="B", p="A", res=["p1", "a1"]), _a("Settle"),
+        _a("RtrDel", c="B", r=["a1", "rtr:k1"]),
+        _a("AspaSet", c="B", cust="a1", prov=[]), _a("Settle")]},
+    # C02: the top of a chain shrinks: every level below is cut in the
+    # publication of its parent; a child that was suspended and unsuspended
+    # before is treated like any other
+    "chain-shrink-after-suspension": {"actions": [
+        _a("AddCa", c="B", p="A", res=["p1", "p2", "a1"]), _a("Settle"),
+        _a("AddCa", c="C", p="B", res=["p1", "p2"]), _a("Settle"),
+        _a("ChildSuspend", c="C", p="B"), _a("Settle"),
+        _a("ChildUnsuspend", c="C", p="B"), _a("Settle"),
+        _a("ChildRes", c="B", p="A", res=["p1", "a1"]),
+        _a("Step", task="sync_B_with_parent_A"),
+        _a("Step", task="sync_B_with_parent_A"),
+        _a("Step", task="sync_repo_B"), _a("Settle"),
+        _a("ChildRes", c="B", p="A", res=["p1", "p2", "a1"]), _a("Settle")]},
+    # C02: nothing left in common: the certificate is revoked, not shrunk
+    "shrink-to-nothing": {"actions": [
+        _a("AddCa", c="B", p="A", res=["p1", "p2"]), _a("Settle"),
+        _a("AddCa", c="C", p="B", res=["p2"]), _a("Settle"),
+        _a("RoaAdd", c="C", r=["p2", "a1"]), _a("Settle"),
+        _a("ChildRes", c="B", p="A", res=["p1"]), _a("Settle"),
+        _a("ChildRes", c="B", p="A", res=["p1", "p2"]), _a("Settle")]},
+    # C03: child removed / suspended / CA with products deleted: withdrawn
+    # and on the CRL
+    "child-removed-suspended-deleted": {"actions": [
+        _a("AddCa", c="B", p="A", res=["p1", "p2"]), _a("Settle"),
+        _a("AddCa", c="C", p="A", res=["p2", "a1"]), _a("Settle"),
+        _a("RoaAdd", c="B", r=["p1", "a1"]),
+        _a("RoaAdd", c="C", r=["p2", "a2"]), _a("Settle"),
+        _a("ChildSuspend", c="B", p="A"), _a("Settle"),
+        _a("ChildUnsuspend", c="B", p="A"), _a("Settle"),
+        _a("ChildRemove", c="B", p="A"), _a("Settle"),
+        _a("DeleteCa", c="C"), _a("Settle")]},
+    # C03 / C01: a route authorisation replaced several times
+    "roa-replaced": {"actions": [
+        _a("AddCa", c="B", p="A", res=["p1", "p2"]), _a("Settle"),
+        _a("RoaAdd", c="B", r=["p1", "a1"]), _a("Settle"),
+        _a("RoaDelta", c="B", add=["p1|a2"], **{"del": ["p1|a1"]}),
+        _a("Settle"),
+        _a("RoaDelta", c="B", add=["p1|a1"], **{"del": ["p1|a2"]}),
+        _a("Settle"), _a("RoaDel", c="B", r=["p1", "a1"]), _a("Settle")]},
+    # C04: entitlement changes, configuration changes, a suspension and a
+    # second roll request while a roll is under way
+    "roll-interleaved": {"actions": [
+        _a("AddCa", c="B", p="A", res=["p1", "p2"]), _a("Settle"),
+        _a("AddCa", c="C", p="B", res=["p1"]), _a("Settle"),
+        _a("RoaAdd", c="B", r=["p1", "a1"]), _a("Settle"),
+        _a("RollInit", c="B"), _a("Settle"),
+        _a("ChildRes", c="B", p="A", res=["p1", "p2", "a1"]), _a("Settle"),
+        _a("RoaAdd", c="B", r=["p2", "a1"]), _a("RollInit", c="B"),
+        _a("ChildSuspend", c="C", p="B"), _a("Settle"),
+        _a("RollActivate", c="B"),
+        _a("ChildRes", c="B", p="A", res=["p1", "p2"]),
+        _a("RoaDel", c="B", r=["p1", "a1"]), _a("Settle"),
+        _a("RollInit", c="B"), _a("Settle"), _a("RollActivate", c="B"),
+        _a("RollActivate", c="B"), _a("Settle")]},
+    # C04: the child rolls while its parent rolls
+    "roll-parent-and-child": {"actions": [
+        _a("AddCa", c="B", p="A", res=["p1", "p2"]), _a("Settle"),
+        _a("AddCa", c="C", p="B", res=["p1"]), _a("Settle"),
+        _a("RoaAdd", c="C", r=["p1", "a1"]), _a("Settle"),
+        _a("RollInit", c="B"), _a("RollInit", c="C"), _a("Settle"),
+        _a("RollActivate", c="B"), _a("Settle"),
+        _a("RollActivate", c="C"), _a("Settle")]},
+}
+
+
+# C09: a change that commits while the scheduler thread is still running the
+# very task the change has to leave in the queue (claimed and processed, not
+# yet finished): the follow-up must be queued again and run -- for the RRDP
+# update after a publication, the repository synchronisation after an object
+# change and the parent synchronisation after an entitlement change.
+HOLD_DIRECTED = [
+    {"theme": "hold", "actions": [
+        _a("AddCa", c="B", p="A", res=["p1", "p2"]), _a("Settle"),
+        _a("RoaAdd", c="B", r=["p1", "a1"]),
+        _a("Step", task="sync_repo_B"),
+        _a("StepHold", task="update_rrdp_if_needed"),
+        _a("RoaAdd", c="B", r=["p2", "a1"]),
+        _a("Step", task="sync_repo_B"),
+        _a("Release"), _a("Settle")]},
+    {"theme": "hold", "actions": [
+        _a("AddCa", c="B", p="A", res=["p1", "p2"]), _a("Settle"),
+        _a("RoaAdd", c="B", r=["p1", "a1"]),
+        _a("StepHold", task="sync_repo_B"),
+        _a("RoaAdd", c="B", r=["p2", "a1"]),
+        _a("Release"), _a("Settle")]},
+    {"theme": "hold", "actions": [
+        _a("AddCa", c="B", p="A", res=["p1", "p2"]), _a("Settle"),
+        _a("ChildRes", c="B", p="A", res=["p1"]),
+        _a("StepHold", task="sync_B_with_parent_A"),
+        _a("ChildRes", c="B", p="A", res=["p1", "p2"]),
+        _a("Release"), _a("Settle")]},
+    {"theme": "hold", "actions": [
+        _a("AddCa", c="B", p="A", res=["p1", "p2"]), _a("Settle"),
+        _a("AddCa", c="C", p="B", res=["p1"]), _a("Settle"),
+        _a("RoaAdd", c="C", r=["p1", "a1"]), _a("Settle"),
+        _a("RollInit", c="C"), _a("Settle"),
+        _a("RollActivate", c="C"),
+        _a("StepHold", task="sync_repo_C"),
+        _a("RoaDel", c="C", r=["p1", "a1"]),
+        _a("Release"), _a("Settle")]},
+]
+
+
+def clause(*names):
+    out = []
+    for n in names:
+        b = copy.deepcopy(CLAUSES[n])
+        b["theme"] = "clause:" + n
+        out.append(b)
+    return out
 
 
 def generate(chk, themes, num, depth, seed, theme_nums=None):
@@ -368,7 +507,10 @@ def run_and_validate(chk, pid, behaviours, tag):
                        nontrivial)
     scan_known(chk, trace)
     for rej in rejections:
-        owner = owner_of(rej["violated"])
+        owners = owners_of(rej["violated"])
+        owner = owners[0] if owners else None
+        if pid in owners:
+            owner = pid
         ev = rej["event"] or {}
         beh = behaviour_of(rej["segment"])
         desc = (f"real krill leaves the specification at step {rej['line']} "
